@@ -38,10 +38,10 @@ def _instances(tier, seed):
                     for lmode in gn.LMODES:
                         insts.append(gn.make_instance(rng, kind=kind, D=D, K=K, lmode=lmode))
     # unconstrained random draws
-    for _ in range(300 if quick else 6000):
+    for _ in range(300 if quick else 5000):
         insts.append(gn.make_instance(rng))
     # small, nearly feasible quadratic problems: the exact behaviours that take 2..4 steps in 32 bits
-    for _ in range(250 if quick else 4000):
+    for _ in range(250 if quick else 3000):
         insts.append(gn.make_instance(rng, kind="quad", D=2, K=1, near=True, maxiter=rng.choice([2, 3, 4, 4]), lmode=rng.choice(["identity", "diag", "tril", "sing_zero_row", "sing_col"])))
     # the same problem under every budget and both tolerances (budget exhaustion must be reported as such)
     for _ in range(12 if quick else 300):
